@@ -42,7 +42,7 @@ pub const DEF: CheckDef = CheckDef {
 
 const VAR: &str = "UPDATE_GOLDEN";
 
-const CONTENTS: [&str; 13] = ["", "a", "a\n", "a\r\n", "a\r\nb\n", "a\nb\r\n", "b", "é\n", "a\r", "\r\n", "a\r\r\n", "日本\r\nb", "a\n\n"];
+const CONTENTS: [&str; 14] = ["", "a", "a\n", "a\r\n", "a\r\nb\n", "a\nb\r\n", "\u{feff}a\n", "b", "é\n", "a\r", "\r\n", "a\r\r\n", "日本\r\nb", "a\n\n"];
 
 #[derive(Clone, Copy, PartialEq, Eq, PartialOrd, Ord, Debug)]
 enum Env {
@@ -217,9 +217,15 @@ fn old_time() -> SystemTime {
     SystemTime::UNIX_EPOCH + Duration::from_secs(978_307_200) // 2001-01-01
 }
 
+/// path numbers for the families that do not number their cases themselves
+fn fresh_serial() -> u64 {
+    static NEXT: std::sync::atomic::AtomicU64 = std::sync::atomic::AtomicU64::new(1 << 40);
+    NEXT.fetch_add(1, std::sync::atomic::Ordering::Relaxed)
+}
+
 impl World {
     /// one private directory per worker process, emptied before every case
-    fn new(root: &Path, _n: u64) -> World {
+    fn new(root: &Path, n: u64) -> World {
         let dir = root.join("w");
         std::fs::create_dir_all(&dir).expect("harness bug: cannot create scratch dir");
         for e in std::fs::read_dir(&dir).expect("harness bug: read_dir") {
@@ -230,7 +236,8 @@ impl World {
                 std::fs::remove_file(&p).expect("harness bug: cleanup");
             }
         }
-        let path = dir.join("golden.txt");
+        // a path of its own for every case: nothing a previous case left behind inside the process can be keyed by it
+        let path = dir.join(format!("golden-{}.txt", n));
         World { dir, path, handle: None }
     }
     fn observe(&self) -> Obs {
@@ -458,7 +465,7 @@ fn run(ctx: &mut Ctx) {
     let mut serial = 0u64;
 
     // family A: BFS to the fixpoint with de-duplication on K
-    let alpha_a = Alphabet { nc: if thorough { CONTENTS.len() } else { 9 }, envs: ENVS.to_vec() };
+    let alpha_a = Alphabet { nc: if thorough { CONTENTS.len() } else { 10 }, envs: ENVS.to_vec() };
     let na = alpha_a.nactions();
     let mut depth_hist: BTreeMap<usize, u64> = BTreeMap::new();
     let b = bfs::bfs(
@@ -487,8 +494,10 @@ fn run(ctx: &mut Ctx) {
     let family_a_cases = serial;
 
     // family B: all raw sequences (no de-duplication) over the 7-content / 3-value alphabet
-    let alpha_b = Alphabet { nc: if thorough { 8 } else { 6 }, envs: vec![Env::Unset, Env::Empty, Env::One] };
-    let depth_b = if thorough { 5 } else { 4 };
+    let alpha_b = Alphabet { nc: if thorough { 9 } else { 4 }, envs: vec![Env::Unset, Env::Empty, Env::One] };
+    // (depth 5 = four actions of history + the judged one: enough for write, new, write, new, assert - a second handle on
+    // the same path must see the file as it is then, not as the first handle saw it)
+    let depth_b = 5;
     let nb = alpha_b.nactions();
     let mut stack: Vec<(Vec<Act>, St)> = vec![(vec![], init.clone())];
     // depth-first, deterministic
@@ -526,7 +535,7 @@ fn run(ctx: &mut Ctx) {
                 ctx.case(
                     || format!("golden file: {} ({:?}); UPDATE_GOLDEN {}; Golden::new, then assert(g) for every g in the content alphabet", kname, bytes, env.name()),
                     move || {
-                        let w = World::new(&root, 0);
+                        let w = World::new(&root, fresh_serial());
                         match bytes {
                             Some(b) => std::fs::write(&w.path, b).expect("harness bug: write"),
                             None => std::fs::create_dir_all(&w.path).expect("harness bug: mkdir"),
@@ -599,7 +608,7 @@ fn run(ctx: &mut Ctx) {
                 ctx.case(
                     || format!("golden path that cannot be written ({}); UPDATE_GOLDEN {}; Golden::new, then assert(g) for every g in the content alphabet", kname, env.name()),
                     move || {
-                        let w = World::new(&root, 0);
+                        let w = World::new(&root, fresh_serial());
                         let parent = w.dir.join("sub");
                         if kname == "parent-is-a-regular-file" {
                             std::fs::write(&parent, b"not a directory\n").expect("harness bug: write");
@@ -669,7 +678,7 @@ fn run(ctx: &mut Ctx) {
                                 lf.push_str(&format!("{:06} {}\n", i, if i % 7 == 0 { "\u{e9}".repeat(28) } else { "x".repeat(56) }));
                             }
                             let file_text = if crlf { lf.replace('\n', "\r\n") } else { lf.clone() };
-                            let w = World::new(&root, 0);
+                            let w = World::new(&root, fresh_serial());
                             let mut gots: Vec<(&str, String, bool)> = vec![("exact", lf.clone(), true), ("lost-final-newline", lf[..lf.len() - 1].to_string(), false), ("first-half", lf[..lf.len() / 2 - (0..4).find(|k| lf.is_char_boundary(lf.len() / 2 - k)).unwrap()].to_string(), false), ("empty", String::new(), false), ("extended", format!("{}x\n", lf), false)];
                             // one CRLF kept at the line end nearest to 8192 / 16384 (as bytes of the CRLF file)
                             for b in [8192usize, 16384] {
